@@ -27,9 +27,9 @@ ASSUMPTIONS = [
 ]
 BOUNDS = {"quick": {"program_size": 3}, "thorough": {"program_size": 4}}
 CHUNK = 8
-MENU = frozenset({"assign", "declare", "declare-use", "declare-tagged", "undef-read", "late-read", "if", "if-else",
+MENU = frozenset({"assign", "declare", "declare-use", "declare-tagged", "declare-attr", "undef-read", "late-read", "if", "if-else",
                   "for", "try-except", "try-nameerror", "return", "raise"})
-SPECIAL = frozenset({"declare", "declare-use", "declare-tagged", "undef-read", "late-read"})
+SPECIAL = frozenset({"declare", "declare-use", "declare-tagged", "declare-attr", "undef-read", "late-read"})
 PRELUDE = "from ptera import tag\n"
 
 
@@ -197,7 +197,7 @@ def instrumented(prog, info, route, supplied, x, part, late_deleted=False):
             if not late_deleted:
                 wd.ns["LATER"] = 5
             try:
-                fn(x)
+                fn(x, *([wd.ns["OBJ"](5)] if "o" in prog.flags else []))
             except BaseException as e:
                 exc = e
                 try:
@@ -210,6 +210,12 @@ def instrumented(prog, info, route, supplied, x, part, late_deleted=False):
                 a.__exit__(None, None, None)
             except BaseException:
                 pass
+    if exc is not None and hasattr(exc, "info"):
+        # after every probe has ended the error must still expose the same information
+        try:
+            exc._pv_info_late = exc.info()
+        except BaseException as e2:
+            exc._pv_info_late = e2
     if kind == "inst" and world.clean_state_problems(wd.f, wd.orig_code):
         part["counters"]["world-rebuilt-unclean"] += 1
         C.discard_world(prog, kind)
@@ -258,6 +264,9 @@ def check_case(prog, info, route, supplied, x, part, record=True, late_deleted=F
             inf = getattr(exc, "_pv_info", None)
             if isinstance(inf, BaseException) or inf is None:
                 return ("declaration-error-info", f"info() raised {type(inf).__name__}: {inf}")
+            late = getattr(exc, "_pv_info_late", inf)
+            if isinstance(late, BaseException) or late != inf:
+                return ("declaration-error-info", f"info() after the probes ended gives {late!r}, while they were active {inf!r}")
             want_ann = tag.A if f"{failing}: tag.A" in prog.src else int
             if inf.get("annotation") is not want_ann and inf.get("annotation") != want_ann:
                 return ("declaration-error-annotation", f"info() annotation {inf.get('annotation')!r}, declared {want_ann!r}")
